@@ -447,26 +447,31 @@ def w_constructible(cfg, tier):
     from panqec.config import CODES, DECODERS
     from panqec.error_models import PauliErrorModel
     col = hz.Collector(cfg)
-    em = PauliErrorModel(0.2, 0.3, 0.5)
+    # noise settings: a generic channel at rate 0.1, the boundary rate 0 (a valid prior: "no error") and
+    # one-sided noise (an exactly-zero component).  Rates with flip marginals above 1/2 are not included: there
+    # the matching weights are negative and a non-trivial correction of the zero syndrome is the optimum.
+    settings = [('generic', (0.2, 0.3, 0.5), 0.1), ('rate0', (0.2, 0.3, 0.5), 0.0), ('pureZ', (0.0, 0.0, 1.0), 0.1)]
     for dname, dcls in DECODERS.items():
         names = dcls.allowed_codes if dcls.allowed_codes is not None else list(common.CLASSES)
         for cname in names:
-            oid = f'C05/constructible/{dname}/{cname}'
-            try:
-                size = common.sizes(cname, 'quick')[0]
-                code = CODES[cname](*size)
-                dec = dcls(code, em, 0.1)
-                n = code.n
-                c0 = np.asarray(dec.decode(np.zeros(code.n_stabilizers, dtype=np.uint8)))
-                ok = c0.shape == (2 * n,) and not c0.any()
-                detail = f'size {size}: zero syndrome -> zero correction of length {2 * n}'
-                if dname == 'MemoryBeliefPropagationDecoder':
-                    ok = c0.shape == (2 * n,)
-                    detail += ' (MBP: only length checked; known to fail its own trivial-syndrome test upstream)'
-            except Exception as ex:
-                ok, detail = False, f'{type(ex).__name__}: {ex}'
-            col.record(oid, 'unsat' if ok else 'sat', 0, False, dict(decoder=dname, code=cname) if not ok else None,
-                       detail)
+            for tag, direction, rate in settings:
+                oid = f'C05/constructible/{dname}/{cname}' + ('' if tag == 'generic' else f'/{tag}')
+                try:
+                    size = common.sizes(cname, 'quick')[0]
+                    code = CODES[cname](*size)
+                    dec = dcls(code, PauliErrorModel(*direction), rate)
+                    n = code.n
+                    with np.errstate(all='ignore'):
+                        c0 = np.asarray(dec.decode(np.zeros(code.n_stabilizers, dtype=np.uint8)))
+                    ok = c0.shape == (2 * n,) and not c0.any()
+                    detail = f'size {size}, direction {direction}, rate {rate}: zero syndrome -> zero correction of length {2 * n}'
+                    if dname == 'MemoryBeliefPropagationDecoder':
+                        ok = c0.shape == (2 * n,)
+                        detail += ' (MBP: only length checked; known to fail its own trivial-syndrome test upstream)'
+                except Exception as ex:
+                    ok, detail = False, f'{type(ex).__name__}: {ex}'
+                col.record(oid, 'unsat' if ok else 'sat', 0, False,
+                           dict(decoder=dname, code=cname, direction=list(direction), rate=rate) if not ok else None, detail)
     col.record('C05/stubs-are-shape-faithful', 'unsat' if validate_stub_shapes() else 'sat', 0, False,
                dict(stub_shapes=True), 'one real call each: Matching.decode, BpOsdDecoder.decode/osdw_decoding, '
                'Generator.choice(size=1) / random()')
@@ -492,8 +497,9 @@ def replay(path):
                 bad = not validate_stub_shapes()
             else:
                 code = CODES[w['code']](*common.sizes(w['code'], 'quick')[0])
-                dec = DECODERS[w['decoder']](code, PauliErrorModel(0.2, 0.3, 0.5), 0.1)
-                c0 = np.asarray(dec.decode(np.zeros(code.n_stabilizers, dtype=np.uint8)))
+                dec = DECODERS[w['decoder']](code, PauliErrorModel(*w.get('direction', (0.2, 0.3, 0.5))), w.get('rate', 0.1))
+                with np.errstate(all='ignore'):
+                    c0 = np.asarray(dec.decode(np.zeros(code.n_stabilizers, dtype=np.uint8)))
                 bad = c0.shape != (2 * code.n,) or bool(c0.any())
         elif w.get('dtype'):
             import panqec.decoders as pd_
@@ -607,8 +613,9 @@ def configs(tier):
     if tier != 'quick':
         out += [f'real-dtype unionfind Toric2DCode(4,4) int64 {l}' for l in (1, 2, 3)]
         out += [f'real-dtype unionfind Toric2DCode(4,5) bool {l}' for l in (1, 2, 3)]
-        out += [f'real-dtype {d} {c} bool' for d in ('matching', 'bposd')
-                for c in ('Toric2DCode(3,4)', 'RotatedPlanar2DCode(3,3)/XZZX/x', 'Toric2DCode(3,3)/XY')]
+        # the matching decoder is defined for CSS codes only (it needs Hx / Hz): deformed codes go to BP-OSD
+        out += [f'real-dtype matching {c} bool' for c in ('Toric2DCode(3,4)', 'RotatedPlanar2DCode(3,3)', 'Planar2DCode(3,4)')]
+        out += [f'real-dtype bposd {c} bool' for c in ('Toric2DCode(3,4)', 'RotatedPlanar2DCode(3,3)/XZZX/x', 'Toric2DCode(3,3)/XY')]
     out += ['sweepmatch Toric3DCode(2,2,2)', 'sweepmatch Planar3DCode(2,2,2)', 'sweepmatch RotatedPlanar3DCode(2,2,2)',
             'sweepmatch RotatedToric3DCode(2,2,2)']
     return out
